@@ -453,32 +453,44 @@ def _capture_marker(ctx):
     from ..engine import dtable
 
     sp = ctx.repo.module(SP)
-    fn = sp.func("_set_specs_capture_always")
-    st = f"{SP}:_set_specs_capture_always"
-    par = param_name(fn, 0, skip_self=False)
-    loops = [n for n in walk_local(fn) if isinstance(n, ast.For) and isinstance(n.iter, ast.Name) and n.iter.id == par and isinstance(n.target, ast.Name)]
+
+    def marker_loops(f):
+        # a loop over stages that touches `<stage>.env`, in a function that names an upper-case *CAPTURE* key
+        has_key = any(isinstance(c, ast.Constant) and isinstance(c.value, str) and c.value.isupper() and "CAPTURE" in c.value for c in ast.walk(f))
+        return [n for n in walk_local(f) if has_key and isinstance(n, ast.For) and isinstance(n.target, ast.Name) and any(isinstance(a_, ast.Attribute) and a_.attr == "env" and unparse(a_.value) == n.target.id and isinstance(a_.ctx, ast.Store) for b in n.body for a_ in ast.walk(b))]
+
+    # the helper, or - when it was inlined - the loop where it was called
+    fn = sp.quals.get("_set_specs_capture_always") or sp.func("cmds_to_specs")
+    st = f"{SP}:{fn.name}"
+    loops = marker_loops(fn)
     if len(loops) != 1:
-        raise AnchorMissing(f"{st}: one loop over the stages handed in")
+        raise AnchorMissing(f"{st}: one loop that marks the stages for capture")
     loop = loops[0]
     v = loop.target.id
-    keys = {c.value for n in ast.walk(loop) for c in ast.walk(n) if isinstance(c, ast.Constant) and isinstance(c.value, str) and c.value.isupper() and "CAPTURE" in c.value}
+    keys = {c.value for c in ast.walk(fn) if isinstance(c, ast.Constant) and isinstance(c.value, str) and c.value.isupper() and "CAPTURE_ALWAYS" in c.value}
     if len(keys) != 1:
         raise AnchorMissing(f"{st}: the marker key ({sorted(keys)})")
     key = next(iter(keys))
+    # locals that hold the key (`name = "XONSH_CAPTURE_ALWAYS"` in front of the loop)
+    fdefs = df.all_defs(fn)
+    keynames = {n_ for n_, ds_ in fdefs.items() if ds_ and all(d_.kind == "assign" and const_value(d_.value, None) == key for d_ in ds_)}
+
+    def is_key(e):
+        return const_value(e, None) == key or (isinstance(e, ast.Name) and e.id in keynames)
 
     def sets_marker(e):
         if isinstance(e, ast.Assign):
             for t in e.targets:
-                if isinstance(t, ast.Attribute) and t.attr == "env" and unparse(t.value) == v and isinstance(e.value, ast.Dict) and any(const_value(k, None) == key for k in e.value.keys if k is not None):
+                if isinstance(t, ast.Attribute) and t.attr == "env" and unparse(t.value) == v and isinstance(e.value, ast.Dict) and any(is_key(k) for k in e.value.keys if k is not None):
                     return True
-                if isinstance(t, ast.Subscript) and const_value(t.slice, None) == key and unparse(t.value) == f"{v}.env":
+                if isinstance(t, ast.Subscript) and is_key(t.slice) and unparse(t.value) == f"{v}.env":
                     return True
             return False
         c = e.value if isinstance(e, ast.Expr) else e
         if isinstance(c, ast.Call) and isinstance(c.func, ast.Attribute) and unparse(c.func.value) == f"{v}.env":
-            if c.func.attr in ("setdefault", "__setitem__") and c.args and const_value(c.args[0], None) == key:
+            if c.func.attr in ("setdefault", "__setitem__") and c.args and is_key(c.args[0]):
                 return True
-            if c.func.attr == "update" and any(isinstance(a, ast.Dict) and any(const_value(k, None) == key for k in a.keys if k is not None) for a in c.args):
+            if c.func.attr == "update" and any(isinstance(a, ast.Dict) and any(is_key(k) for k in a.keys if k is not None) for a in c.args):
                 return True
         return False
 
@@ -494,7 +506,8 @@ def _capture_marker(ctx):
     # ... and cmds_to_specs applies it to all stages when the output is captured or redirected, to all but the last otherwise
     c2s = sp.func("cmds_to_specs")
     calls = [c for c in calls_in(c2s) if call_name(c) == "_set_specs_capture_always"]
-    ctx.ob("R7", f"{SP}:cmds_to_specs", "the marker is applied while building the pipeline (unless $XONSH_CAPTURE_ALWAYS is on anyway)", len(calls) == 1, key="capture-marker|not-applied", where=loc(calls[0]) if calls else loc(c2s))
+    inline_ = fn is c2s
+    ctx.ob("R7", f"{SP}:cmds_to_specs", "the marker is applied while building the pipeline (unless $XONSH_CAPTURE_ALWAYS is on anyway)", len(calls) == 1 or inline_, key="capture-marker|not-applied", where=loc(calls[0]) if calls else loc(c2s))
 
 
 META = {
